@@ -6,7 +6,9 @@
 -/
 import FcGen.KSrcFam4
 import FcGen.KSrcFam5
-import FcProps.KTieJoin
+import FcProps.KTieCore
+import FcProps.KTieStd
+import FcProps.KTiePS
 
 namespace Fc
 open Rs Src
